@@ -101,7 +101,7 @@ def run_analysis(s, spec, name, args):
 def mkargs():
     c = get_conf()
     c["node"]["Source"] = {"fillcolor": "coral"}
-    return {"tags": {"rev": 3, "who": "x"}, "config": c}
+    return {"tags": {"rev": 3, "who": "x", "Group": "tagged", "Parent": "tagged"}, "config": c}
 
 
 def check_seq(case):
